@@ -11,6 +11,10 @@ import (
 	"github.com/tidwall/resp"
 )
 
+// monitorWriteTimeout is how long one line may take to get into the socket
+// of a MONITOR client
+const monitorWriteTimeout = time.Second / 4
+
 type liveMonitorSwitches struct {
 	// no fields. everything is managed through the Message
 }
@@ -94,9 +98,16 @@ func (s *Server) sendMonitor(err error, msg *Message, c *Client, lua bool) {
 	} else {
 		addr = c.remoteAddr
 	}
+	// The caller holds the server lock. A monitor that does not read must not
+	// hold everybody up: one that cannot take a line in time is closed.
 	s.monconnsMu.Lock()
 	for conn := range s.monconns {
-		fmt.Fprintf(conn, "+%s [0 %s] %s\r\n", tstr, addr, line)
+		conn.SetWriteDeadline(time.Now().Add(monitorWriteTimeout))
+		_, err := fmt.Fprintf(conn, "+%s [0 %s] %s\r\n", tstr, addr, line)
+		if err != nil {
+			conn.Close()
+			delete(s.monconns, conn)
+		}
 	}
 	s.monconnsMu.Unlock()
 }
